@@ -185,10 +185,20 @@ def all_specs():
     return out
 
 
+THOROUGH_TRIPLES = 2500
+
+
+def size_text():
+    """what the thorough tiers run over, for the bounds statements"""
+    n = len(all_specs())
+    return (f"ALL {n:,} structs of the generated pair corpus (every single and every grammatical ordered pair of {len(TEMPLATES)} instruction "
+            f"templates in {len(CONTEXTS)} contexts) plus {THOROUGH_TRIPLES:,} VERIF_SEED-chosen instruction triples")
+
+
 def select(tier, seed, sample=None, with_singles=True):
     specs = all_specs()
     if tier == "thorough" and sample is None:
-        return specs + triples(seed, 2500)
+        return specs + triples(seed, THOROUGH_TRIPLES)
     singles = [s for s in specs if s[2] is None]
     pairs = [s for s in specs if s[2] is not None]
     rnd = random.Random(seed)
